@@ -332,6 +332,7 @@ func runC17(c *Ctx) {
 	}
 	c17Keys(c)
 	c17URLPrecedence(c)
+	c17FlagAlwaysSet(c)
 }
 
 func c17Serialiser(c *Ctx, F *ssa.Function) {
@@ -814,4 +815,58 @@ func c17URLPrecedence(c *Ctx) {
 		c.Check(g && nonVacuous(pass), "O7", fmt.Sprintf("best-match-replaced-only-by-no-worse-host#%d", i), p.InstrPos(a.st), "a candidate replaces the best match only when its host matches at least as exactly",
 			"a configuration entry whose host matches LESS exactly can replace the best match (e.g. through a longer path match): credential.<wildcard-host>/path.protectProtocol=false then switches CR protection off for a host that has its own protectProtocol=true: "+path)
 	}
+}
+
+// c17FlagAlwaysSet (O5, every path): the command helper is a long-lived object whose protection flag is assigned
+// right before it is handed out for a URL. The assignment must lie on every path to that hand-out: a path that
+// skips it leaves the flag at the zero value (false) or at whatever an earlier URL set — CR protection silently off.
+func c17FlagAlwaysSet(c *Ctx) {
+	p := c.P
+	n := 0
+	for _, fn := range p.RepoFuncs(func(s string) bool { return s == Mod+"/creds" }) {
+		var stores []*ssa.Store
+		for _, b := range fn.Blocks {
+			for _, in := range b.Instrs {
+				if st, ok := in.(*ssa.Store); ok {
+					if fa, ok := st.Addr.(*ssa.FieldAddr); ok {
+						if _, f := fieldAddrName(fa); f == "protectProtocol" {
+							stores = append(stores, st)
+						}
+					}
+				}
+			}
+		}
+		if len(stores) == 0 {
+			continue
+		}
+		// hand-outs: the helper value used as an element of a helper list or returned
+		cut := map[Edge]bool{}
+		for _, st := range stores {
+			for i := range st.Block().Succs {
+				cut[Edge{st.Block(), i}] = true
+			}
+		}
+		for _, b := range fn.Blocks {
+			for _, in := range b.Instrs {
+				mi, ok := in.(*ssa.MakeInterface)
+				if !ok {
+					continue
+				}
+				if _, f, _, isF := FieldOf(mi.X); !isF || f != "commandCredHelper" {
+					continue
+				}
+				n++
+				storeHere := false
+				for _, st := range stores {
+					if st.Block() == b && InstrIndex(st) < InstrIndex(in) {
+						storeHere = true
+					}
+				}
+				reach := !storeHere && InstrReachable(fn.Blocks[0], in, cut, nil)
+				c.Check(!reach, "O5", fmt.Sprintf("%s:flag-set-on-every-path#%d", FnName(fn), n), p.InstrPos(in), "the protection flag is assigned on every path before the helper is handed out",
+					"the command credential helper can be handed out without its protection flag having been assigned for this URL (the assignment is conditional): the flag keeps its zero value false, and a value with a carriage return is written to `git credential`")
+			}
+		}
+	}
+	c.AtLeast("O5", "hand-outs of the command credential helper", n, 1)
 }
